@@ -32,6 +32,7 @@ RULE = ("1..2 function definitions whose bodies are grammar programs over 1..4 "
         "nesting, or a name coincidence between caller and callee; distinct "
         "by canonical JSON")
 RULE += '  Round-4 addition: a traced call whose result is not an array where the direct call returns one is a violation (was a harness error).'
+RULE += '  Round-5 addition: 10 programs calling two different functions of one identifier and signature whose bodies differ only in a constant (-1/-2, 1.0/2.0), an operand or an operator, on the same arguments.'
 ASSUMPTIONS = [
     "callee bodies use exact (integer/dyadic) arithmetic, index remapping, "
     "reductions, comparisons and contractions so that every call with fresh "
@@ -385,6 +386,48 @@ def _nontrivial(case) -> bool:
     return ncalls >= 2 or nested or bool(caller & callee_names)
 
 
+def twin_function_gadgets():
+    """two DIFFERENT functions of one identifier and one signature whose
+    bodies differ only in a constant (-1 / -2, which hash alike in CPython;
+    2 / 3), an operator or the result order, called on the same arguments in
+    one graph: neither deduplication nor inlining may take one for the other"""
+    def ph(name, values):
+        return {"op": "placeholder", "p": {"name": name, "shape": [3],
+                                           "dtype": "float64", "scale": 0,
+                                           "values": values}}
+
+    def fn(last, ident):
+        nodes = [ph("a", [0, 0, 0]), ph("b", [0, 0, 0]),
+                 {"op": "mul", "args": [["n", 0], ["n", 1]]}, last]
+        return {"spec": {"nodes": nodes, "outputs": [["out0", 3]]},
+                "ret": "array", "ident": ident}
+    variants = [
+        ({"op": "add", "args": [["n", 2], ["py", -1]]},
+         {"op": "add", "args": [["n", 2], ["py", -2]]}),
+        ({"op": "sub", "args": [["n", 2], ["py", 1.0]]},
+         {"op": "sub", "args": [["n", 2], ["py", 2.0]]}),
+        ({"op": "mul", "args": [["n", 2], ["py", -1.0]]},
+         {"op": "mul", "args": [["n", 2], ["py", -2.0]]}),
+        ({"op": "add", "args": [["n", 2], ["n", 0]]},
+         {"op": "add", "args": [["n", 2], ["n", 1]]}),
+        ({"op": "maximum", "args": [["n", 2], ["n", 0]]},
+         {"op": "minimum", "args": [["n", 2], ["n", 0]]}),
+    ]
+    for la, lb in variants:
+        for ident, how in (("f", "given"), (None, "guess")):
+            fns = [fn(la, ident), fn(lb, ident)]
+            nodes = [ph("x", [1, -2, 4]), ph("y", [3, 5, -7])]
+            outs = []
+            for t in (0, 1):
+                nodes.append({"op": "fncall", "args": [["n", 0], ["n", 1]],
+                              "p": {"fn": t, "kw": [None, None],
+                                    "identifier": how}})
+                nodes.append({"op": "item", "args": [["n", len(nodes) - 1]],
+                              "p": {"key": "out0"}})
+                outs.append([f"out{t}", len(nodes) - 1])
+            yield {"nodes": nodes, "outputs": outs, "fns": fns}
+
+
 def run_shard(shard: int, nshards: int, seed: int, tier: str) -> ShardResult:
     pl = plan(tier)
     res = ShardResult()
@@ -421,6 +464,10 @@ def run_shard(shard: int, nshards: int, seed: int, tier: str) -> ShardResult:
             res.fail(f, case)
 
     hyp_run(cases(), body, seed, pl["examples"])
+    for j, case in enumerate(twin_function_gadgets()):
+        if j % nshards == shard:
+            res.count("twin_function_gadget")
+            body(case)
     return res
 
 
